@@ -19,6 +19,7 @@ def main(argv=None) -> int:
     args = ap.parse_args(argv)
     seed = int(os.environ.get("VERIF_SEED", "20260929"))
     ctx = Ctx(args.pid, args.tier, seed, args.replay)
+    ctx.dev_run = bool(args.skip_proofs)
     mod = importlib.import_module(f"harness.props.{args.pid.lower()}")
     try:
         if args.replay:
